@@ -122,7 +122,10 @@ CHECKS = {
               "functional models; every reported layer accumulator is compared field by field with the Coq layer model; every input, weight, "
               "bias, activation and pre-activation tensor of the running model (random and extremal weights x random, all-max, all-min, "
               "sign-aligned inputs) is tested for exact membership in its reported type (Python Fractions, extremes re-judged by Coq mem_type); "
-              "analyze_accumulator is compared with the realised / vertex maximum per channel. Two genuine defects repaired."),
+              "analyze_accumulator is compared with the realised / vertex maximum per channel. Bridge theorems (QTools/Po2Bridge.v, QTools/LayerMap.v): every "
+              "output of the quantized_bits / quantized_relu / quantized_po2 / quantized_relu_po2 models is a member of the qtools type reported for the quantizer. "
+              "Kernel families include power-of-two kernels with max_value that is not a power of two and with max_value <= 1 (no exponent sign bit), activations include "
+              "power-of-two and leaky ones; directed single-layer corner models. Four genuine defects repaired (two in analyze_accumulator, get_exp, po2_to_qbits)."),
         design_ref="DESIGN.md section 5 C18, section 10.4, 10.8",
         note=(TB_COMMON + "qtools' graph builder needs four Keras-2 accessors that Keras 3 dropped (known finding); the harness supplies them as "
               "pure accessors and qtools runs unmodified. Po2 / binary / ternary kernels are covered by the operator theorems of C16/C17 and by "
